@@ -289,7 +289,6 @@ Proof. intros [->| ->]; apply convert_preserves; reflexivity. Qed.
 
 (* ------------------------------------------------------------------ isolate_ref *)
 Definition is_ref (k : kw) : bool := match k with KwRef _ _ => true | _ => false end.
-Definition is_allof (k : kw) : bool := match k with KwAllOf _ => true | _ => false end.
 
 Lemma forallb_split {A} (p f : A -> bool) l :
   forallb f l = forallb f (filter (fun x => negb (p x)) l) && forallb f (filter p l).
